@@ -325,7 +325,7 @@ FpGridNewOK(ev) ==
 ExEvOK(ev) ==
   /\ ev.out = "ok"
   /\ CASE ev.op = "ExDiffusion" -> ev.attain = 1 /\ ev.scale_inv = 1 /\ ev.line = 1 /\ ev.support_whole = 1
-       [] ev.op = "ExPotential" -> ev.count = 10 /\ ev.shift_ok = 1 /\ ev.interp_ok = 1 /\ ev.sorted = 1
+       [] ev.op \in {"ExPotential", "ExPotentialWin"} -> ev.count = 10 /\ ev.shift_ok = 1 /\ ev.interp_ok = 1 /\ ev.sorted = 1
        [] OTHER -> ev.ok = 1
 
 SupOps == {"GridNew", "GridFind", "GridAt", "SupNew", "SupRead", "SupIdx", "SupBin", "SupTri"}
@@ -338,6 +338,6 @@ EventOK(ev) == /\ Sane(ev)
                     [] ev.op = "Interp" -> InterpEvOK(ev)
                     [] ev.op \in {"FpGen", "FpEval", "FpBin", "FpApply", "FpBF", "FpInt", "FpInterp"} -> FpEvOK(ev)
                     [] ev.op = "FpGridNew" -> FpGridNewOK(ev)
-                    [] ev.op \in {"ExDiffusion", "ExPotential", "ExOscillator", "ExHydrogen"} -> ExEvOK(ev)
+                    [] ev.op \in {"ExDiffusion", "ExPotential", "ExPotentialWin", "ExOscillator", "ExHydrogen"} -> ExEvOK(ev)
                     [] OTHER -> FALSE
 =============================================================================
